@@ -218,6 +218,11 @@ func (o *C11) AfterTx(w *World, r *TxResult) {
 	ch, denom := r.Tx.Meta["chain"], r.Tx.Meta["denom"]
 	amt, fee := bigOf(r.Tx.Meta["amt"]), bigOf(r.Tx.Meta["fee"])
 	total := new(big.Int).Add(amt, fee)
+	nMsgs := int64(1)
+	if n, err := strconv.ParseInt(r.Tx.Meta["n"], 10, 64); err == nil && n > 1 {
+		nMsgs = n
+	}
+	debit := new(big.Int).Mul(total, big.NewInt(nMsgs))
 	sender, _ := sdk.AccAddressFromBech32(r.Tx.Signer)
 	post := st.AllBalances()
 	// exactly the sender's balance of that denom changes, by −(amount+fee)
@@ -248,9 +253,12 @@ func (o *C11) AfterTx(w *World, r *TxResult) {
 		preS = sdk.ZeroInt()
 	}
 	delta := preS.Sub(st.Balance(sender, denom))
-	if delta.BigInt().Cmp(total) != 0 {
-		w.Fail("C11", "debit", "sender", fmt.Sprintf("withdrawal of %s+%s%s debited %s", amt, fee, denom, delta))
+	if delta.BigInt().Cmp(debit) != 0 {
+		w.Fail("C11", "debit", "sender", fmt.Sprintf("%d withdrawal(s) of %s+%s%s debited %s", nMsgs, amt, fee, denom, delta))
 		return
+	}
+	if nMsgs > 1 {
+		return // the per-transfer postconditions below are stated for a single withdrawal
 	}
 	// the scheduled transfer
 	var entry *mhub2types.SendToExternal
